@@ -249,7 +249,7 @@ theorem C12_own_group (sys : Sys) (dp : Option String) (g : GroupKind) (personsI
       cases hobj : kv.2.asObj? with
       | none =>
         rw [hobj] at hqs
-        simp [roleDocs, lookupS, strictSyntax, Doc.strs, Doc.asArr?] at hqs
+        simp [lookupS, strictSyntax, Doc.strs, Doc.asArr?] at hqs
       | some ikvs =>
         have hkv' : (kv.1, Doc.obj ikvs) ∈ kvs := by
           have : kv = (kv.1, Doc.obj ikvs) := by
@@ -266,5 +266,300 @@ theorem C12_own_group (sys : Sys) (dp : Option String) (g : GroupKind) (personsI
           simpa using List.idxOf_lt_length_of_mem this
         have := Option.some.inj hcontra
         omega
+
+
+/-! ## the flush: shorter periods first, longer ones fill what is still unknown -/
+
+/-- What is assumed of `Holder.set_input` for a variable that is not eternal (clauses of C16:
+"one definition period still unknown is written as given", "a known period is never overwritten",
+"only definition periods inside the given period are written" — such a period is never sorted
+after the period that contains it): -/
+structure SetInputOK (si : SetInput) : Prop where
+  /-- an input on one definition period that is still unknown is stored as given -/
+  exact : ∀ (s : Store) (var : Var) (n : Nat) (p : Period) (a : Vec),
+    var.defUnit ≠ .eternity → p.unit = var.defUnit → p.size = 1 → a.length = n →
+    alGet s (var.name, p) = none → si s var n p a = .ok (alSet s (var.name, p) a)
+  /-- whatever the period, entries already known under another key are kept -/
+  keeps : ∀ (s s' : Store) (var : Var) (n : Nat) (p : Period) (a : Vec),
+    var.defUnit ≠ .eternity → si s var n p a = .ok s' →
+    ∀ (k : String × Period) (x : Vec), k ≠ (var.name, p) → alGet s k = some x → alGet s' k = some x
+  /-- a newly written entry belongs to the variable and is the period itself or a period that the
+  flush order puts strictly before it -/
+  fresh : ∀ (s s' : Store) (var : Var) (n : Nat) (p : Period) (a : Vec),
+    var.defUnit ≠ .eternity → si s var n p a = .ok s' →
+    ∀ (k : String × Period), alGet s k = none → alGet s' k ≠ none →
+    k.1 = var.name ∧ (k.2 = p ∨ periodLe p k.2 = false)
+
+/-- the assumption is satisfiable: a `set_input` that accepts one definition period at a time -/
+def plainSetInput : SetInput := fun s var _ p a =>
+  if p.unit = var.defUnit ∧ p.size = 1 then .ok (alSet s (var.name, p) a) else .error .situation
+
+example : SetInputOK plainSetInput where
+  exact := by
+    intro s var n p a _ hu hs _ _
+    unfold plainSetInput; rw [if_pos ⟨hu, hs⟩]
+  keeps := by
+    intro s s' var n p a _ h k x hk hx
+    unfold plainSetInput at h
+    split at h
+    · cases h; rw [alGet_alSet_ne _ _ _ _ hk]; exact hx
+    · cases h
+  fresh := by
+    intro s s' var n p a _ h k hk hk'
+    unfold plainSetInput at h
+    split at h
+    · cases h
+      by_cases e : k = (var.name, p)
+      · subst e; exact ⟨rfl, Or.inl rfl⟩
+      · rw [alGet_alSet_ne _ _ _ _ e] at hk'; exact absurd hk hk'
+    · cases h
+
+theorem flush_unknown (si : SetInput) (hsi : SetInputOK si) (buf : Buffer) (var : Var)
+    (hne : var.defUnit ≠ .eternity) (count : Nat) (q : Period) :
+    ∀ (ps : List Period) (s s' : Store), (∀ q' ∈ ps, q' ≠ q ∧ periodLe q' q = true) →
+    foldE (callStep si buf var count) s ps = .ok s' → alGet s (var.name, q) = none →
+    alGet s' (var.name, q) = none
+  | [], s, s', _, h, hx => by cases h; exact hx
+  | q' :: ps, s, s', hk, h, hx => by
+    obtain ⟨s₁, h1, h2⟩ := foldE_cons_ok _ s s' q' ps h
+    apply flush_unknown si hsi buf var hne count q ps s₁ s' (fun q'' hq'' => hk q'' (List.mem_cons_of_mem _ hq'')) h2
+    unfold callStep at h1
+    cases hg : alGet buf (var.name, q'.text) with
+    | none => rw [hg] at h1; cases h1
+    | some values =>
+      rw [hg] at h1
+      simp only at h1
+      by_cases hz : values.length = 0
+      · rw [if_pos hz] at h1; cases h1
+      · rw [if_neg hz] at h1
+        cases hq : alGet s₁ (var.name, q) with
+        | none => rfl
+        | some x =>
+          have := (hsi.fresh s s₁ var count q' _ hne h1 (var.name, q) hx (by rw [hq]; simp)).2
+          obtain ⟨hneq, hle⟩ := hk q' List.mem_cons_self
+          rcases this with e | e
+          · exact absurd e.symm hneq
+          · simp only at e; rw [hle] at e; cases e
+
+theorem flush_keeps (si : SetInput) (hsi : SetInputOK si) (buf : Buffer) (var : Var)
+    (hne : var.defUnit ≠ .eternity) (count : Nat) (k : String × Period) (x : Vec) :
+    ∀ (ps : List Period) (s s' : Store), (∀ q ∈ ps, (var.name, q) ≠ k) →
+    foldE (callStep si buf var count) s ps = .ok s' → alGet s k = some x → alGet s' k = some x
+  | [], s, s', _, h, hx => by cases h; exact hx
+  | q :: ps, s, s', hk, h, hx => by
+    obtain ⟨s₁, h1, h2⟩ := foldE_cons_ok _ s s' q ps h
+    apply flush_keeps si hsi buf var hne count k x ps s₁ s' (fun q' hq' => hk q' (List.mem_cons_of_mem _ hq')) h2
+    unfold callStep at h1
+    cases hg : alGet buf (var.name, q.text) with
+    | none => rw [hg] at h1; cases h1
+    | some values =>
+      rw [hg] at h1
+      simp only at h1
+      by_cases hz : values.length = 0
+      · rw [if_pos hz] at h1; cases h1
+      · rw [if_neg hz] at h1
+        exact hsi.keeps s s₁ var count q _ hne h1 k x (fun e => hk q List.mem_cons_self e.symm) hx
+
+/-- **C12_longer_fills_gaps.**  For every buffer and every variable, the periods handed to
+`set_input` are a permutation of the buffered ones, sorted by (unit weight, size): a period is
+never written before a period of a lighter unit, nor before a shorter one of the same unit
+(repair C12b: the key is numeric).  Consequently, under `SetInputOK`, whatever is declared on
+longer periods, the value declared on ONE definition period is what the simulation holds for it:
+a longer period only fills what is still unknown. -/
+theorem C12_longer_fills_gaps (buf : Buffer) (v : String) (ps : List Period)
+    (h : sortedPeriods buf v = .ok ps) :
+    ps.Pairwise (fun p q => periodLe p q = true) ∧
+    (∃ qs, All₂ (fun ck q => parsePeriod ck = .ok q) (varKeys buf v) qs ∧ ps.Perm qs) ∧
+    (∀ (si : SetInput), SetInputOK si → ∀ (var : Var) (count : Nat) (s s' : Store),
+      var.name = v → var.defUnit ≠ .eternity → ps.Nodup →
+      foldE (callStep si buf var count) s ps = .ok s' →
+      ∀ q ∈ ps, alGet s (v, q) = none →
+      q.unit = var.defUnit → q.size = 1 →
+      ∀ values, alGet buf (v, q.text) = some values → values.length ≠ 0 →
+      (tile (count / values.length) values).length = count →
+      alGet s' (v, q) = some (tile (count / values.length) values)) := by
+  obtain ⟨qs, hq, rfl⟩ := sortedPeriods_ok h
+  refine ⟨List.pairwise_mergeSort periodLe_trans periodLe_total qs, ⟨qs, ?_, List.mergeSort_perm qs periodLe⟩, ?_⟩
+  · have := mapE_forall₂ _ _ _ hq
+    clear hq h
+    generalize varKeys buf v = keys at this
+    induction this with
+    | nil => exact .nil
+    | @cons a b l l' hab _ ih =>
+      refine .cons ?_ ih
+      cases hp : parsePeriod a with
+      | error e => rw [hp] at hab; cases hab
+      | ok p => rw [hp] at hab; cases hab; rfl
+  · intro si hsi var count s s' hname hne hnd hfold q hqm hunk hunit hsize values hvals hz hlen
+    subst hname
+    have hsorted := List.pairwise_mergeSort periodLe_trans periodLe_total qs
+    obtain ⟨pre, post, hsplit⟩ := List.append_of_mem hqm
+    rw [hsplit] at hfold hnd
+    -- run up to q, then q itself, then the rest
+    have hsplitfold : ∀ (l₁ l₂ : List Period) (a b : Store),
+        foldE (callStep si buf var count) a (l₁ ++ l₂) = .ok b →
+        ∃ m, foldE (callStep si buf var count) a l₁ = .ok m ∧ foldE (callStep si buf var count) m l₂ = .ok b := by
+      intro l₁
+      induction l₁ with
+      | nil => intro l₂ a b hab; exact ⟨a, rfl, hab⟩
+      | cons x xs ih =>
+        intro l₂ a b hab
+        obtain ⟨a₁, h1, h2⟩ := foldE_cons_ok _ a b x (xs ++ l₂) hab
+        obtain ⟨m, hm1, hm2⟩ := ih l₂ a₁ b h2
+        exact ⟨m, by rw [foldE_cons_of_ok _ a a₁ x xs h1]; exact hm1, hm2⟩
+    obtain ⟨m, hm1, hm2⟩ := hsplitfold pre (q :: post) s s' hfold
+    obtain ⟨m₁, hq1, hpost⟩ := foldE_cons_ok _ m s' q post hm2
+    have hmunk : alGet m (var.name, q) = none := by
+      apply flush_unknown si hsi buf var hne count q pre s m ?_ hm1 hunk
+      intro q' hq'
+      rw [hsplit, List.pairwise_append] at hsorted
+      refine ⟨?_, hsorted.2.2 q' hq' q List.mem_cons_self⟩
+      intro e
+      subst e
+      rw [List.nodup_append] at hnd
+      exact hnd.2.2 q' hq' q' List.mem_cons_self rfl
+    have hm₁ : alGet m₁ (var.name, q) = some (tile (count / values.length) values) := by
+      unfold callStep at hq1
+      rw [hvals] at hq1
+      simp only [if_neg hz] at hq1
+      rw [hsi.exact m var count q _ hne hunit hsize hlen hmunk] at hq1
+      cases hq1
+      exact alGet_alSet_same _ _ _
+    apply flush_keeps si hsi buf var hne count (var.name, q) _ post m₁ s' ?_ hpost hm₁
+    intro q' hq' e
+    have hq'q : q' = q := by simpa using congrArg Prod.snd e
+    subst hq'q
+    rw [List.nodup_append] at hnd
+    exact (List.nodup_cons.mp hnd.2.1).1 hq'
+
+
+/-! ## spelling of period keys -/
+
+/-- **C12_spelling_invariant.**  Two fully specified documents that differ only in how period keys
+are spelt (`TopEq`: same entities, same instances in the same order, same variables, pairwise
+`parseKey k = parseKey k'` and equal values) give the same result — the same simulation or the
+same refusal — whatever `set_input` does.  The same holds for one `set_input` of the
+variables-only form and for the `period` of an axis: keys are read through `parseKey` only. -/
+theorem C12_spelling_invariant (sys : Sys) (dp : Option String) (si : SetInput) :
+    (∀ (kvs kvs' : List (DKey × Doc)), All₂ TopEq kvs kvs' →
+      buildFromEntities sys dp si kvs = buildFromEntities sys dp si kvs') ∧
+    (∀ (count : Nat) (store : Store) (name k k' : DKey) (value : Doc), parseKey k = parseKey k' →
+      setInputDoc sys si count store name k value = setInputDoc sys si count store name k' value) ∧
+    (∀ (entKey : String) (step cell cnt : Nat) (multi : Bool) (coords : List Nat) (buf : Buffer) (a : Axis)
+      (k k' : DKey), parseKey k = parseKey k' →
+      layAxis sys dp entKey step cell cnt multi coords buf { a with period := some k } =
+      layAxis sys dp entKey step cell cnt multi coords buf { a with period := some k' }) :=
+  ⟨buildFromEntities_congr sys dp si, setInputDoc_congr sys si, layAxis_congr sys dp⟩
+
+/-- The statement for `build_from_dict`, proved for documents none of whose top-level keys is a
+singular entity key or a variable name (the fully specified shape and the fall-through of repair
+C12d).  Full statement: the same for every document, with `InstEq` on the entries under a singular
+key (short form) and `VarDocEq` on the entries under a variable name (variables-only form).
+Missing: the lifting of `setInputDoc_congr` through `buildFromVariables` and of
+`buildFromEntities_congr` through `explicitSingular`. -/
+theorem C12_spelling_invariant_dict_partial (sys : Sys) (dp : Option String) (si : SetInput)
+    (kvs kvs' : List (DKey × Doc)) (h : All₂ TopEq kvs kvs') (hne : kvs ≠ [])
+    (hk : kvs.any (fun kv => keyIn (sys.singulars.map (·.1)) kv.1) = false)
+    (hv : kvs.any (fun kv => keyIn (sys.vars.map (·.name)) kv.1) = false) :
+    buildFromDict sys dp si (.obj kvs) = buildFromDict sys dp si (.obj kvs') := by
+  have hkey := fun f => all₂_any_key (Rel := TopEq) (fun _ _ h => h.1) f h
+  have hall : kvs.all (fun kv => isEntityKey sys kv.1) = kvs'.all (fun kv => isEntityKey sys kv.1) := by
+    clear hne hk hv hkey
+    induction h with
+    | nil => rfl
+    | cons hab _ ih => simp [List.all_cons, hab.1, ih]
+  have hne' : kvs' ≠ [] := by
+    intro e; rw [e] at h; cases h; exact hne rfl
+  have he : kvs.isEmpty = false := by cases kvs with | nil => exact absurd rfl hne | cons _ _ => rfl
+  have he' : kvs'.isEmpty = false := by cases kvs' with | nil => exact absurd rfl hne' | cons _ _ => rfl
+  unfold buildFromDict
+  simp only [Doc.asObj?]
+  rw [← hkey isIntKey, ← hkey (fun k => keyIn (sys.singulars.map (·.1)) k),
+    ← hkey (fun k => keyIn (sys.vars.map (·.name)) k), ← hall, hk, hv, he, he']
+  simp only [Bool.false_eq_true, if_false, false_or, Bool.not_false, true_and]
+  rw [buildFromEntities_congr sys dp si kvs kvs' h]
+
+
+/-! ## axes -/
+
+theorem replicate_tile {α : Type} (d : α) (step : Nat) : ∀ cell,
+    List.replicate (cell * step) d = tile cell (List.replicate step d)
+  | 0 => by simp [tile]
+  | c + 1 => by
+    rw [tile_eq_copies, copies_succ, ← tile_eq_copies, ← replicate_tile d step c, Nat.succ_mul,
+      List.replicate_append_replicate]
+
+/-- **C12_axes_concat.**  Expanding over axes is concatenating the copies:
+(1) every entity has `cell` times its instances; the ids of copy `c` are the prototype's ids
+followed by the running index `c·n + i`; the roles of every copy are the prototype's; the
+memberships of copy `c` are the prototype's shifted by `c` times the number of groups;
+(2) when an axis is laid (`layAxis` succeeds, index inside the prototype, array buffered at
+prototype size or absent), the array of its variable at its period is the concatenation over the
+copies of the prototype array with the axis value of that copy on the indexed instance — and no
+other buffered array changes (they are replicated when flushed: `callStep` tiles). -/
+theorem C12_axes_concat :
+    (∀ (cell : Nat) (e : Ent),
+      (expandEnt cell e).count = cell * e.count ∧
+      (expandEnt cell e).ids = copies cell (fun c =>
+        List.zipWith (fun id (i : Nat) => id ++ toString (c * e.count + i)) e.ids (List.range e.count)) ∧
+      (expandEnt cell e).roles = copies cell (fun _ => e.roles) ∧
+      (e.isPerson = false → (expandEnt cell e).memb = copies cell (fun c => e.memb.map (· + c * e.count)))) ∧
+    (∀ (sys : Sys) (dp : Option String) (entKey : String) (step cell cnt : Nat) (multi : Bool)
+      (coords : List Nat) (buf buf' : Buffer) (a : Axis) (var : Var) (ck : List Char) (proto : Vec),
+      layAxis sys dp entKey step cell cnt multi coords buf a = .ok buf' →
+      sys.var? a.name = some var →
+      ∀ (k : DKey), axisKey dp a = some k → canonKey k = .ok ck → a.index < step →
+      ((alGet buf (a.name, ck) = none ∧ proto = List.replicate step var.default) ∨
+       (alGet buf (a.name, ck) = some proto ∧ proto.length = step)) →
+      ∃ vals, mapE (fun c => axisCast var (axisValue a cnt c)) coords = .ok vals ∧
+        alGet buf' (a.name, ck) = some (copies cell (fun c =>
+          proto.set a.index (vals.getD c (proto.getD a.index default)))) ∧
+        ∀ k, k ≠ (a.name, ck) → alGet buf' k = alGet buf k) := by
+  refine ⟨?_, ?_⟩
+  · intro cell e
+    have hids : (expandEnt cell e).ids = copies cell (fun c =>
+        List.zipWith (fun id (i : Nat) => id ++ toString (c * e.count + i)) e.ids (List.range e.count)) := by
+      unfold expandEnt Ent.count; exact ids_copies e.ids cell
+    refine ⟨?_, hids, ?_, ?_⟩
+    · show (expandEnt cell e).ids.length = cell * e.count
+      rw [hids, copies_length _ e.count (fun c => by simp [Ent.count])]
+    · unfold expandEnt; exact tile_eq_copies e.roles cell
+    · intro hp
+      unfold expandEnt Ent.count
+      simp only [hp, Bool.false_eq_true, if_false]
+      exact memb_copies e.memb e.ids.length cell
+  · intro sys dp entKey step cell cnt multi coords buf buf' a var ck proto h hvar k hkey hck hidx hproto
+    unfold layAxis at h
+    rw [hvar] at h
+    simp only at h
+    split at h
+    · cases h
+    · rw [hkey] at h
+      simp only [hck] at h
+      split at h
+      · cases h
+      · cases hm : mapE (fun c => axisCast var (axisValue a cnt c)) coords with
+        | error e => rw [hm] at h; cases h
+        | ok vals =>
+          rw [hm] at h
+          simp only at h
+          refine ⟨vals, rfl, ?_⟩
+          have harr : axisArray buf (a.name, ck) cell step var.default = tile cell proto := by
+            unfold axisArray
+            rcases hproto with ⟨hn, hp⟩ | ⟨hs, hl⟩
+            · rw [hn, hp]; exact replicate_tile _ _ _
+            · rw [hs]; simp [hl]
+          rw [harr] at h
+          cases hs : strideSet (tile cell proto) a.index step vals with
+          | error e => rw [hs] at h; cases h
+          | ok arr' =>
+            rw [hs] at h
+            cases h
+            have hl : proto.length = step := by
+              rcases hproto with ⟨_, hp⟩ | ⟨_, hl⟩
+              · rw [hp]; simp
+              · exact hl
+            refine ⟨?_, fun k hk => alGet_alSet_ne _ _ _ _ hk⟩
+            rw [alGet_alSet_same, strideSet_copies proto vals arr' a.index step cell hl hidx hs]
 
 end OFCore.Bld
